@@ -15,8 +15,8 @@ impl Prop for Unsol {
     }
     fn cases(tier: Tier) -> u32 {
         match tier {
-            Tier::Quick => 30_000,
-            Tier::Thorough => 3_000_000,
+            Tier::Quick => 120_000,
+            Tier::Thorough => 4_800_000,
         }
     }
     fn floors() -> Vec<(&'static str, u32)> {
